@@ -233,13 +233,24 @@ func (runInfo *runInfoStruct) invokeLetItemSlice(expr *ast.ItemExpr, item reflec
 		return
 	}
 
-	if index == item.Len() {
-		// try to do automatic append
+	if index == item.Len() && item.Kind() == reflect.Slice {
+		// try to do automatic append (an array cannot grow: for it the index is out of range)
 		value, runInfo.err = convertReflectValueToType(value, item.Type().Elem())
 		if runInfo.err != nil {
 			runInfo.err = newStringError(expr, "type "+value.Type().String()+" cannot be assigned to type "+item.Type().Elem().String()+" for slice index")
 			runInfo.rv = nilValue
 			return
+		}
+		if !isPlaceExpr(expr.Item) {
+			// the grown slice has to be assigned back, and this target (a call, a slice expression) takes no assignment:
+			// fail before the append writes into capacity that is shared with other slices
+			runInfo.rv = item
+			runInfo.expr = expr.Item
+			runInfo.invokeLetExpr()
+			if runInfo.err != nil {
+				runInfo.rv = nilValue
+				return
+			}
 		}
 		item = reflect.Append(item, value)
 		runInfo.rv = item
